@@ -126,7 +126,9 @@ func (e *env) pedersen() {
 					var err1, err2 error
 					vals := e.values("random", m)
 					if !c.Guard(pkg+"/Commit/panic/wrong-length", func() string { return fmt.Sprintf("n=%d values=%d", n, m) }, func() { _, err1 = e.in.PedCommit(k.pk, vals); _, err2 = e.in.PedProve(k.pk, vals) }) {
-						c.Check("Commit", pkg+"/Commit/wrong-length-accepted", err1 != nil && err2 != nil, func() string { return fmt.Sprintf("basis n=%d, %d values: Commit err=%v ProveKnowledge err=%v", n, m, err1, err2) })
+						c.Check("Commit", pkg+"/Commit/wrong-length-accepted", err1 != nil && err2 != nil, func() string {
+							return fmt.Sprintf("basis n=%d, %d values: Commit err=%v ProveKnowledge err=%v", n, m, err1, err2)
+						})
 					}
 				}
 			}
@@ -292,7 +294,9 @@ func (e *env) pedersen() {
 			c.Check("BatchProve", pkg+"/BatchProve/error", false, func() string { return descS() + fmt.Sprint(" errors: ", e1, e2, e3, e4) })
 			continue
 		}
-		dB := func() string { return descS() + fmt.Sprintf(" batch of %d commitments, coefficient %s", nb, short(rho)) }
+		dB := func() string {
+			return descS() + fmt.Sprintf(" batch of %d commitments, coefficient %s", nb, short(rho))
+		}
 		e.honest(opV, fmt.Sprintf("library-setup/batch-proof-with-folded-commitment/k=%d", nb), dB, func() error { return e.in.PedVerify(vk, Cf, Pf) })
 		if nb > 1 {
 			e.forged(opV, "library-setup/folded-commitment-with-another-coefficient", dB, func() error { return e.in.PedVerify(vk, Cf2, Pf) })
